@@ -6,6 +6,8 @@ import (
 	"go/token"
 	"go/types"
 	"os"
+	"regexp"
+	"strconv"
 	"strings"
 
 	"golang.org/x/tools/go/ssa"
@@ -17,16 +19,63 @@ type Outcome struct {
 }
 
 type recorder struct {
-	body  map[*ssa.BasicBlock]bool
-	mods  map[string]bool
-	fn    *ssa.Function
-	depth int
+	body map[*ssa.BasicBlock]bool
+	mods map[string]bool
+	// direct heap stores at addresses fixed before the loop (see noteStore)
+	stores      []storeRange
+	freshStores bool
+	unstable    bool
+	startFresh  int
+	fn          *ssa.Function
+	depth       int
 }
 
 func (st *State) noteMod(key string) {
 	for _, r := range st.x.recStack {
 		r.mods[key] = true
 	}
+}
+
+// noteStore records a direct heap store of n bytes at address a for the loops being recorded.
+func (st *State) noteStore(a string, n uint64) {
+	for _, r := range st.x.recStack {
+		if st.storeFresh {
+			// into an object allocated by this function: above the allocator's base, whatever the index
+			r.freshStores = true
+			continue
+		}
+		if !stableTerm(a, r.startFresh) {
+			r.unstable = true
+			continue
+		}
+		dup := false
+		for _, s := range r.stores {
+			if s.at == a && s.n == n {
+				dup = true
+			}
+		}
+		if !dup {
+			r.stores = append(r.stores, storeRange{a, n})
+		}
+	}
+}
+
+type storeRange struct {
+	at string
+	n  uint64
+}
+
+var freshSuffix = regexp.MustCompile(`_([0-9]+)\b`)
+
+// stableTerm reports whether every engine-generated name in t was introduced
+// before the counter value start, i.e. the term denotes a value fixed before the loop.
+func stableTerm(t string, start int) bool {
+	for _, m := range freshSuffix.FindAllStringSubmatch(t, -1) {
+		if n, err := strconv.Atoi(m[1]); err != nil || n > start {
+			return false
+		}
+	}
+	return true
 }
 
 type unsupported struct{ msg string }
@@ -62,7 +111,9 @@ func (st *State) symbolic(t types.Type, name string, prov func(ls leafShape) *Pr
 				st.mem[p.Space] = &MemVer{kind: mBase, term: an}
 			}
 			out = vPtr(n, p)
-			st.assume(app("bvult", n, bvLit(maxAddr, 64))) // user-space addresses; object sizes never wrap
+			// user-space addresses; the object a pointer parameter refers to (less than 16 MB) lies below
+			// the first address the model's allocator hands out, so it never overlaps a fresh allocation
+			st.assume(app("bvult", n, bvLit(maxAddr-(1<<24), 64)))
 		default:
 			st.decl(n, sortBV(ls.W))
 			out = vBV(n, ls.W, ls.Signed)
@@ -394,7 +445,15 @@ func (st *State) loadTyped(addr V, t types.Type) V {
 		srcRegion = addr.Prov.Region
 	}
 	if srcRegion == "meta" && space == "H" {
-		st.assume(app("ismeta", addr.T))
+		st.loadMeta = true
+		defer func() { st.loadMeta = false }()
+	}
+	if strings.HasPrefix(srcRegion, "fresh#") && space == "H" {
+		st.loadFresh = true
+		defer func() { st.loadFresh = false }()
+	}
+	if srcRegion == "meta" && space == "H" {
+		st.assumeMeta(addr.T, sizeof(t))
 		st.x.noteAssumption("codec metadata (receiver-reachable memory) is immutable and disjoint from decode targets (ismeta frame)")
 	}
 	defer func() {
@@ -424,21 +483,46 @@ func (st *State) loadTyped(addr V, t types.Type) V {
 	}))
 }
 
+// assumeMeta: every byte of an object read from codec metadata is metadata.
+func (st *State) assumeMeta(a string, size int64) {
+	if size > 256 {
+		size = 256
+	}
+	key := fmt.Sprintf("%s|%d", a, size)
+	if st.lemmaSeen == nil {
+		st.lemmaSeen = map[string]bool{}
+	}
+	if st.lemmaSeen["meta:"+key] {
+		return
+	}
+	st.lemmaSeen["meta:"+key] = true
+	var cs []string
+	for i := int64(0); i < size; i++ {
+		cs = append(cs, app("ismeta", bvadd(a, bvLit(uint64(i), 64))))
+	}
+	st.assume(and(cs...))
+}
+
 // withTypeInv assumes the representation invariants of slices and strings for a
 // value that was read from memory.
 func (st *State) withTypeInv(t types.Type, v V) V {
 	switch u := t.Underlying().(type) {
 	case *types.Slice:
 		st.assume(and(app("bvsle", bvLit(0, 64), v.Fs[1].T), app("bvsle", v.Fs[1].T, v.Fs[2].T), app("bvult", v.Fs[2].T, bvLit(maxLen, 64))))
+		// every modelled address (parameters below 2^47, allocations below 2^62) is below 2^63: object extents never wrap
+		st.assume(app("bvult", v.Fs[0].T, bvLit(uint64(1)<<63, 64)))
 	case *types.Basic:
 		if u.Kind() == types.String {
 			st.assume(and(app("bvsle", bvLit(0, 64), v.Fs[1].T), app("bvult", v.Fs[1].T, bvLit(maxLen, 64))))
+			st.assume(app("bvult", v.Fs[0].T, bvLit(uint64(1)<<63, 64)))
 		}
 	}
 	return v
 }
 
 func (st *State) storeTyped(addr V, val V, t types.Type) {
+	st.storeFresh = addr.Prov != nil && addr.Prov.Space == "H" && strings.HasPrefix(addr.Prov.Region, "fresh#")
+	defer func() { st.storeFresh = false }()
 	space := spaceOf(addr, "H")
 	if space == "H" || space == "G" {
 		st.materialize(val, t)
@@ -457,6 +541,11 @@ func (st *State) storeTyped(addr V, val V, t types.Type) {
 			st.storeN(space, a, boolToBV(vs[i].T, 8), 1)
 		case KPtr:
 			st.storeN(space, a, vs[i].T, 8)
+			if old, ok := st.shadow[space+"@"+a]; ok && strings.HasPrefix(old.Space, "H:sep") {
+				if vs[i].Prov == nil || vs[i].Prov.Space != old.Space {
+					unsup("a slice declared 'separate' is replaced by one that is not in its region")
+				}
+			}
 			if vs[i].Prov != nil {
 				st.shadow[space+"@"+a] = vs[i].Prov
 			} else {
@@ -466,9 +555,12 @@ func (st *State) storeTyped(addr V, val V, t types.Type) {
 			st.storeN(space, a, vs[i].T, l.W/8)
 		}
 	}
-	st.noteMod(space)
 	if space == "H" {
+		// a direct store: its byte range is recorded so that a loop cut can keep the rest of the heap
 		st.noteMod("H:store")
+		st.noteStore(addr.T, uint64(sizeof(t)))
+	} else {
+		st.noteMod(space)
 	}
 }
 
@@ -542,6 +634,7 @@ func (st *State) allocFresh(space string, nbytes string, zero bool) V {
 	p := vPtr(addr, &Prov{Space: space, Region: fmt.Sprintf("fresh#%d", st.regions)})
 	if zero {
 		st.writeSeq(space, addr, nbytes, func(*State, string) string { return bvLit(0, 8) })
+		st.mem[space].fresh = true
 	}
 	st.noteMod(space + "+")
 	return p
@@ -750,14 +843,28 @@ func (x *Exec) checkLoop(st *State, fr *Frame, ld *loopDesc, spec *LoopSpec, ent
 		x.oblige(st, x.oname(fr, fmt.Sprintf("loop%d.rangeindex.%s", ld.ordinal, which)), "invariant", x.safetyTags(fr),
 			and(app("bvsle", bvLit(^uint64(0), ri.W), ri.T), app("bvslt", ri.T, bvLit(maxLen, ri.W))), x.posOf(ld.pos), "-1 <= rangeindex < 2^40")
 	}
+	fidx := -1
+	for k, f := range st.frames {
+		if f == fr {
+			fidx = k
+		}
+	}
 	for i, inv := range spec.Invariants {
 		name := x.oname(fr, fmt.Sprintf("loop%d.inv%d.%s", ld.ordinal, i+1, which))
-		t, err := env.evalBool(inv.Expr)
+		// each clause is proved on a copy of the state: its witnesses and the instances made for
+		// them do not burden the proofs that follow
+		ps, penv := st, env
+		if fidx >= 0 {
+			ps = st.fork()
+			penv = x.loopEnv(ps, ps.frames[fidx], ld)
+			penv.prove = true
+		}
+		t, err := penv.evalBool(inv.Expr)
 		if err != nil {
 			x.genFail(name, "invariant", inv.Tags, x.posOf(ld.pos), err.Error())
 			continue
 		}
-		x.oblige(st, name, "invariant", x.tagsOr(inv.Tags, fr), t, x.posOf(ld.pos), inv.Text)
+		x.oblige(ps, name, "invariant", x.tagsOr(inv.Tags, fr), t, x.posOf(ld.pos), inv.Text)
 	}
 	if !entry && spec.Decreases != nil {
 		rec := fr.loopRec[ld.head]
@@ -781,7 +888,7 @@ func (x *Exec) checkLoop(st *State, fr *Frame, ld *loopDesc, spec *LoopSpec, ent
 // cutLoop havocs the loop-carried state and assumes the invariant.
 func (x *Exec) cutLoop(st *State, fr *Frame, ld *loopDesc, spec *LoopSpec, phis []*ssa.Phi) {
 	// dry run to learn which memories the body modifies
-	rec := &recorder{body: ld.body, mods: map[string]bool{}, fn: fr.fn, depth: fr.depth}
+	rec := &recorder{body: ld.body, mods: map[string]bool{}, fn: fr.fn, depth: fr.depth, startFresh: x.fresh}
 	x.recStack = append(x.recStack, rec)
 	x.recording++
 	func() {
@@ -795,7 +902,17 @@ func (x *Exec) cutLoop(st *State, fr *Frame, ld *loopDesc, spec *LoopSpec, phis 
 		x.havocLoop(dry, dfr, ld, phis, map[string]bool{"*": true})
 		x.runInstrsDry(dry, ld.head, len(phis))
 	}()
+	st.loopStores = nil
+	if rec.mods["H:store"] && !rec.mods["H"] && !rec.unstable && (len(rec.stores) > 0 || rec.freshStores) && len(rec.stores) <= 16 {
+		st.loopStores = rec.stores
+		if st.loopStores == nil {
+			st.loopStores = []storeRange{}
+		}
+		st.loopFresh = rec.freshStores
+	}
 	x.havocLoop(st, fr, ld, phis, rec.mods)
+	st.loopStores = nil
+	st.loopFresh = false
 	env := x.loopEnv(st, fr, ld)
 	{
 		henv := x.loopEnv(st, fr, ld)
@@ -895,6 +1012,29 @@ func (x *Exec) havocLoop(st *State, fr *Frame, ld *loopDesc, phis []*ssa.Phi, mo
 				keep := x.heapKeep(st)
 				if mods["H:store"] || all {
 					keep = func(a string) string { return app("ismeta", a) }
+				}
+				st.havoc("H", keep)
+			} else if mods["H:store"] {
+				brk0 := st.brk["H"]
+				keep := func(a string) string { return app("ismeta", a) }
+				if rs := st.loopStores; rs != nil {
+					// the body stores only to byte ranges fixed before the loop: everything else is kept
+					keep = func(a string) string {
+						cs := []string{}
+						for _, r := range rs {
+							cs = append(cs, not(app("bvult", st.x.addrDiff(a, r.at), bvLit(r.n, 64))))
+						}
+						if mods["H+"] {
+							// objects allocated by earlier iterations live above the break
+							cs = append(cs, app("bvult", a, brk0))
+						}
+						if st.loopFresh {
+							// the body also stores into objects allocated by this function: all of them lie
+							// at or above the allocator's base, below which everything is kept
+							cs = append(cs, app("bvult", a, bvLit(maxAddr, 64)))
+						}
+						return or(app("ismeta", a), and(cs...))
+					}
 				}
 				st.havoc("H", keep)
 			} else if mods["H+"] {
@@ -1198,10 +1338,14 @@ func (x *Exec) step(st *State, fr *Frame, in ssa.Instruction) {
 	case *ssa.Index:
 		arr := st.operand(ins.X)
 		idx := st.operand(ins.Index)
+		if isString(ins.X.Type()) {
+			st.env[ins] = x.stringIndex(st, fr, ins, arr, idx, ins.Index.Type())
+			break
+		}
 		if v, _, ok := litVal(idx.T); ok && int(v) < len(arr.Fs) {
 			st.env[ins] = arr.Fs[v]
 		} else {
-			unsup("symbolic index into array value")
+			unsup("symbolic index into array value: %s (X %s of type %s)", ins, ins.X, ins.X.Type())
 		}
 	case *ssa.Lookup:
 		st.env[ins] = x.lookup(st, fr, ins)
@@ -1694,6 +1838,8 @@ func (x *Exec) indexAddr(st *State, fr *Frame, ins *ssa.IndexAddr) V {
 		if v, _, ok := litVal(i64); ok {
 			off = bvLit(v*es, 64)
 		}
+		// the bounds obligation above was assumed: 0 <= i < len < 2^40 from here on
+		st.markBounded(i64)
 	}
 	return vPtr(st.define("ia", sortBV(64), bvadd(ptr.T, off)), ptr.Prov)
 }
@@ -1708,7 +1854,15 @@ func (x *Exec) lookup(st *State, fr *Frame, ins *ssa.Lookup) V {
 	xv := st.operand(ins.X)
 	idx := st.operand(ins.Index)
 	if isString(ins.X.Type()) {
-		i64, signed := idx64(idx, ins.Index.Type())
+		return x.stringIndex(st, fr, ins, xv, idx, ins.Index.Type())
+	}
+	return x.mapLookup(st, fr, ins, xv, idx)
+}
+
+// stringIndex is s[i]: a bounds obligation and a byte load.
+func (x *Exec) stringIndex(st *State, fr *Frame, ins ssa.Instruction, xv, idx V, it types.Type) V {
+	{
+		i64, signed := idx64(idx, it)
 		var goal string
 		if signed {
 			goal = and(app("bvsle", bvLit(0, 64), i64), app("bvslt", i64, xv.Fs[1].T))
@@ -1721,7 +1875,6 @@ func (x *Exec) lookup(st *State, fr *Frame, ins *ssa.Lookup) V {
 		}
 		return vBV(st.define("ch", sortBV(8), st.load8(spaceOf(xv.Fs[0], "B"), bvadd(xv.Fs[0].T, i64))), 8, false)
 	}
-	return x.mapLookup(st, fr, ins, xv, idx)
 }
 
 func (x *Exec) slice(st *State, fr *Frame, ins *ssa.Slice) V {
